@@ -252,6 +252,14 @@ def places_disjoint(p, q):
         # two shared references nothing is written
         if cp[0][0] == "deref" and cq[0][0] == "deref" and cp[0][1][0] == "param" and cq[0][1][0] == "param" and cp[0][1][1] != cq[0][1][1]:
             return True
+        # Box ownership: the heap allocation owned by a Box value is disjoint from the object that holds the
+        # Box (and from anything else reached without going through that Box)
+        bp = cp[0][0] == "deref" and isinstance(cp[0][1], tuple) and cp[0][1][0] == "boxptr"
+        bq = cq[0][0] == "deref" and isinstance(cq[0][1], tuple) and cq[0][1][0] == "boxptr"
+        if bp != bq:
+            other = cq if bp else cp
+            if other[0][0] == "deref" and isinstance(other[0][1], tuple) and other[0][1][0] in ("param", "upvar"):
+                return True
         return False
     for a, b in zip(cp[1:], cq[1:]):
         if a == b:
@@ -442,6 +450,7 @@ class Interp:
         self.block_states = {}  # bb -> list of entry states
         self.final_states = []  # states at `return`
         self.backedge_states = {}  # head -> list of states arriving over a back edge
+        self.inl_back = []  # back-edge states of loops inside inlined callees (events include the caller's prefix)
         self.array_len = {}  # place of a fixed-size array that was unsized -> its length
         self.discr_names = {}  # discriminant term -> {value: variant name}
         self.loop_entry = {}  # head -> list of environments on entry from outside (before havoc)
@@ -1065,6 +1074,9 @@ class Interp:
             outs.append(ns)
         for ds in sub.diverged:
             self.diverged.append(ds)
+        for l in sub.backedge_states.values():
+            self.inl_back.extend(l)
+        self.inl_back.extend(sub.inl_back)
         self.inlined_subs = getattr(self, "inlined_subs", [])
         self.inlined_subs.append(sub)
         return outs
@@ -1294,7 +1306,7 @@ class Interp:
                 yield st, ev
 
     def all_end_states(self):
-        return self.final_states + [s for l in self.backedge_states.values() for s in l]
+        return self.final_states + [s for l in self.backedge_states.values() for s in l] + self.inl_back
 
 
 def strip_mem(t):
